@@ -343,6 +343,15 @@ def run_replay(path):
     with open(path) as fh:
         payload = json.load(fh)
     mod = importlib.import_module(payload["module"])
+    det = payload.get("detail") or {}
+    if isinstance(det, dict) and det.get("script") and payload["kind"] == "instance" and "inst" in payload["data"]:
+        # a recorded choice sequence: replay exactly that one execution, without the explorer
+        from .genexp import Instance, replay_script
+
+        inst = Instance.from_json(payload["data"]["inst"])
+        summary, per = replay_script(inst, det["script"])
+        print(json.dumps({"single_execution": summary, "oracle_findings": per}, indent=1, default=str))
+        return 1 if per else 0
     res = mod.eval_case(payload["kind"], payload["data"])
     hit = [v for v in res["viol"] if v["key"] == payload["key"]]
     print(json.dumps({"expected_key": payload["key"], "reproduced": bool(hit), "violations": res["viol"]}, indent=1, default=str))
